@@ -59,6 +59,28 @@ Theorem C03_bech32_detects_4 : forall hrp data data' r,
 Proof. exact bech32_detects_4. Qed.
 Print Assumptions C03_bech32_detects_4.
 
+(* review round 2: the case exclusion of C03_bech32_detects_4 narrowed to exactly what is accepted.  A
+   corrupted string (1..4 substituted data characters, none a new separator) is rejected unless it is the
+   all-lower-case or the all-upper-case form of the original -- in particular a change of case of SOME
+   letters (a mixed-case string) is rejected *)
+Theorem C03_bech32_detects_4_case : forall hrp data data' r,
+  Bech32.decode (hrp ++ 49 :: data) = Ok r -> ~ In 49 data ->
+  length data' = length data -> ~ In 49 data' ->
+  (hamming data data' <= 4)%nat ->
+  hrp ++ 49 :: data' <> map to_lower (hrp ++ 49 :: data) ->
+  hrp ++ 49 :: data' <> map to_upper (hrp ++ 49 :: data) ->
+  exists e, Bech32.decode (hrp ++ 49 :: data') = Err e.
+Proof. exact bech32_detects_4_case. Qed.
+Print Assumptions C03_bech32_detects_4_case.
+
+(* any number of case changes: the only accepted case variants of an accepted string are its two pure forms *)
+Theorem C03_bech32_mixed_case_rejected : forall s s' r,
+  Bech32.decode s = Ok r -> map to_lower s' = map to_lower s ->
+  s' <> map to_lower s -> s' <> map to_upper s ->
+  exists e, Bech32.decode s' = Err e.
+Proof. exact bech32_mixed_case_rejected. Qed.
+Print Assumptions C03_bech32_mixed_case_rejected.
+
 Theorem C03_bech32_min_distance_5 : forall hrp data data' r r',
   Bech32.decode (hrp ++ 49 :: data) = Ok r -> Bech32.decode (hrp ++ 49 :: data') = Ok r' ->
   ~ In 49 data -> ~ In 49 data' -> length data' = length data ->
@@ -144,5 +166,7 @@ Definition ex_bech : list N :=
    121;48;99;53;120;119;55;107;118;56;102;51;116;52].
 Example C03_example_bech32 :
   is_ok (Bech32.decode ex_bech) = true /\
-  Bech32.decode (firstn 3 ex_bech ++ 112 :: skipn 4 ex_bech) = Err 6.
+  Bech32.decode (firstn 3 ex_bech ++ 112 :: skipn 4 ex_bech) = Err 6 /\
+  (* 'q' -> 'Q' at the first data position: mixed case *)
+  Bech32.decode (firstn 3 ex_bech ++ 81 :: skipn 4 ex_bech) = Err 3.
 Proof. vm_compute. repeat split; reflexivity. Qed.
